@@ -872,8 +872,13 @@ class KernelAnalysis:
         # slice of a slice: y_data[:d][::-1]
         if isinstance(base, ast.Subscript):
             inner = self.ev_subscript(base)
-            if inner.kind == 'fam' and isinstance(n.slice, ast.Slice):
-                sl = n.slice
+            sl0 = n.slice
+            if isinstance(sl0, ast.Tuple) and sl0.elts and isinstance(sl0.elts[0], ast.Slice) and all(
+                    (isinstance(e_, ast.Constant) and e_.value is Ellipsis) or
+                    (isinstance(e_, ast.Slice) and e_.lower is None and e_.upper is None and e_.step is None) for e_ in sl0.elts[1:]):
+                sl0 = sl0.elts[0]          # y_data[1:d+1][::-1, :, ...]: only the coefficient axis is re-sliced
+            if inner.kind == 'fam' and isinstance(sl0, ast.Slice):
+                sl = sl0
                 if sl.lower is None and sl.upper is None and sl.step is not None:
                     s = to_aff(sl.step, self.aff_env)
                     if s is not None and s.is_const and s.c == -1 and inner.length is not None:
@@ -1154,6 +1159,11 @@ class KernelAnalysis:
             return Val.bot('einsum form not understood: ' + norm(c)[:60], self.ev(c.args[1]).reads + self.ev(c.args[2]).reads)
         if name == 'square' and args:
             return self.mul_vals(args[0], args[0], c)
+        if name in ('divide', 'true_divide') and len(c.args) >= 2 and (d or '').split('.')[0] in ('numpy', 'np'):
+            # numpy.divide(a, b) is a / b
+            return self.ev(ast.copy_location(ast.BinOp(left=c.args[0], op=ast.Div(), right=c.args[1]), c))
+        if name == 'negative' and len(c.args) >= 1 and (d or '').split('.')[0] in ('numpy', 'np'):
+            return self.ev(ast.copy_location(ast.UnaryOp(op=ast.USub(), operand=c.args[0]), c))
         if name in BILINEAR and len(args) >= 2:
             return self.mul_vals(args[0], args[1], c)
         if name in ADDITIVE and len(args) >= 2:
@@ -1984,11 +1994,11 @@ class KernelAnalysis:
                 self.store(tgt, v, st, aug=None)
             return
         out = kw.get('out')
-        if d and d.split('.')[0] in ('numpy', 'np') and out is None and name in ('add', 'multiply', 'subtract', 'sign', 'absolute') \
+        if d and d.split('.')[0] in ('numpy', 'np') and out is None and name in ('add', 'multiply', 'subtract', 'divide', 'true_divide', 'sign', 'absolute', 'negative') \
                 and len(c.args) >= 3:
             out = c.args[2]
         if d and d.split('.')[0] in ('numpy', 'np', 'scipy') and out is not None:
-            c2 = ast.Call(func=c.func, args=c.args[:2] if (name in ('add', 'multiply', 'subtract') and len(c.args) >= 3) else c.args,
+            c2 = ast.Call(func=c.func, args=c.args[:2] if (name in ('add', 'multiply', 'subtract', 'divide', 'true_divide') and len(c.args) >= 3) else c.args,
                           keywords=[k for k in c.keywords if k.arg != 'out'])
             ast.copy_location(c2, c)
             v = self.ev_call(c2)
